@@ -5,14 +5,14 @@ import json, os, re, subprocess, sys
 COQ = os.path.join(os.path.dirname(os.path.dirname(os.path.abspath(__file__))), "coq")
 spec = json.load(open(sys.argv[1]))
 hdr = spec["header"]
-chk = hdr + "\nSet Printing Width 108.\n" + "\n".join('Check %s.' % t["lemma"] for t in spec["theorems"]) + "\n"
+chk = hdr + "\nSet Printing Width 108.\n" + "\n".join('Check @%s.' % t["lemma"] for t in spec["theorems"]) + "\n"
 open("/tmp/_mkprops.v", "w").write(chk)
 out = subprocess.run(["coqc", "-q", "-Q", COQ, "V", "/tmp/_mkprops.v"], capture_output=True, text=True)
 if out.returncode != 0:
     print(out.stdout, out.stderr); sys.exit(1)
 blocks, cur = {}, None
 for line in out.stdout.splitlines():
-    m = re.match(r"^([A-Za-z0-9_'.]+)$", line)
+    m = re.match(r"^@?([A-Za-z0-9_'.]+)$", line)
     if m and any(t["lemma"].split(".")[-1] == m.group(1) or t["lemma"] == m.group(1) for t in spec["theorems"]):
         cur = m.group(1); blocks[cur] = []
     elif cur is not None:
@@ -23,7 +23,7 @@ for t in spec["theorems"]:
     stmt = "\n".join(b)
     stmt = re.sub(r"^\s*:\s", "  ", stmt, count=1)
     text.append("(* %s *)" % t["comment"])
-    text.append("Theorem %s :\n%s.\nProof. exact %s. Qed.\n" % (t["name"], stmt, t["lemma"]))
+    text.append("Theorem %s :\n%s.\nProof. exact (@%s). Qed.\n" % (t["name"], stmt, t["lemma"]))
 text.append(spec.get("extra", ""))
 text += ["Print Assumptions %s." % t["name"] for t in spec["theorems"]]
 open(os.path.join(COQ, "props", spec["file"]), "w").write("\n".join(text) + "\n")
